@@ -126,6 +126,7 @@ type Path struct {
 	dhs            []dhRec
 	sleepBlocks    bool
 	eagerOffsets   bool
+	timedSleep     bool
 	httpServeCalls int
 }
 
